@@ -7,7 +7,9 @@ var (
 	// SigmaUTF8 adds the 2-byte rune é and its fold partner É (valid UTF-8 closed).
 	SigmaUTF8 = []string{"a", "b", "A", "0", " ", "\n", "é", "É"}
 	// SigmaRaw: ill-formed sequences and truncated runes (0xC3 0xA9 = é split in two symbols; 0xFF never valid).
-	SigmaRaw = []string{"a", "\n", "\xc3", "\xa9", "\xff"}
+	// 0xED 0xA0 0x80 is an encoded surrogate: well-formed in structure, invalid as UTF-8 (package regexp steps over it one
+	// byte at a time); 0x80 alone is a stray continuation byte and 0xC3 0x80 a second valid rune.
+	SigmaRaw = []string{"a", "\n", "\xc3", "\xa9", "\xff", "\xed", "\xa0", "\x80"}
 )
 
 // Words calls f with every sequence of at most maxLen symbols over sigma, shortest first, in odometer order.
